@@ -15,13 +15,25 @@ Print Assumptions C16_refuse.
 
 (* files that satisfy the rules are read as if no rule were in force *)
 Theorem C16_unaffected : forall t g cb o path dl cm n,
-  fs_lstat t path = Some n -> sec_ok (g_sec g) n = true ->
+  fs_lstat t path = Some n -> sec_ok (g_sec g) n = true -> perm_refusal (g_sec g) t path n = None ->
   go_res (gate t g cb o path dl cm) =
   go_res (gate t (mkG sec_none (g_conf_dirs g) (g_errfile g) (g_errline g)) cb o path dl cm) /\
   go_events (gate t g cb o path dl cm) =
   go_events (gate t (mkG sec_none (g_conf_dirs g) (g_errfile g) (g_errline g)) cb o path dl cm).
 Proof. exact gate_unaffected. Qed.
 Print Assumptions C16_unaffected.
+
+(* the deprecated permission requirement (not named by the property, modelled since it shares the gate): a file that
+   passes the three rules but lacks the demanded mode bits is refused with the permission code, before callback and
+   open; [perm_refusal] is [None] whenever no requirement was set, so C16_unaffected covers the property's settings *)
+Theorem C16_permission_refused : forall t g cb o path dl cm n e,
+  fs_lstat t path = Some n -> sec_ok (g_sec g) n = true -> perm_refusal (g_sec g) t path n = Some e ->
+  go_res (gate t g cb o path dl cm) = inl e /\ go_events (gate t g cb o path dl cm) = [].
+Proof. exact gate_perm_refuses. Qed.
+Print Assumptions C16_permission_refused.
+Theorem C16_no_requirement_no_refusal : forall s t path n, sec_perms s = None -> perm_refusal s t path n = None.
+Proof. intros s t path n H. unfold perm_refusal. rewrite H. reflexivity. Qed.
+Print Assumptions C16_no_requirement_no_refusal.
 
 (* every file a layered read opens satisfies the rules in force — whatever
    the tree, the parameters, the entry point *)
